@@ -56,9 +56,12 @@ def make_judge(model, rec, Sid):
             return
         if not isinstance(s, str):
             return
+        query_tail = None
         if "?" in s:
-            rec.unspec("has_query")
-            return
+            # a string with a query tail: when the part before the '?' fits no (or not the forced) template the Sid is untyped and
+            # keeps the WHOLE input verbatim; when it is typed the outcome is C04's subject
+            s_full = s
+            s, query_tail = s.split("?", 1)
         try:
             got = {"type": res.type, "fields": list(res.fields.items()), "str": str(res), "bool": bool(res), "len": len(res)}
         except Exception as e:  # observing must not fail either
@@ -90,6 +93,22 @@ def make_judge(model, rec, Sid):
         else:
             rec.count("forced_unknown")
             t = None
+        if query_tail is not None:
+            if t is not None or (body == "" and query_tail != ""):
+                # (typed base: C04; an EMPTY base with a query is the "build a Sid from a query" form: C02)
+                rec.unspec("has_query")
+                return
+            rec.count("untyped_with_query_tail")
+            case = dict(case, s=s_full)
+            bad = []
+            if got["bool"] or got["type"] or got["fields"] or got["len"]:
+                bad.append("expected untyped, got type=%r fields=%r" % (got["type"], got["fields"]))
+            accepted = (s_full, s_full.split(":", 1)[1]) if forced is not None else (s_full,)
+            if got["str"] not in accepted:
+                bad.append("string %r not verbatim (%r)" % (got["str"], s_full))
+            if bad:
+                rec.violation("untyped_string_changed" if len(bad) == 1 and "verbatim" in bad[0] else "typed_but_oracle_untyped", case, "; ".join(bad))
+            return
         if t is not None:
             rec.count("oracle_typed")
             if not t.simple:
@@ -207,7 +226,7 @@ def worker(args):
         elif r < 0.94:
             # any string: also one with a query tail (its typing is C04's subject - here it must simply not fail)
             base = vocab.valid_string(t, rng) if rng.random() < 0.7 else gen.mutate_string(vocab.valid_string(t, rng), rng, vocab, lits)[0]
-            s = base + "?" + rng.choice(["foo=bar", "a=b&c=d", "%s=zz" % t.keys[-1], "%s=*" % t.keys[0], "x", "=", "&", "foo={bar}", "a=b?c=d",
+            s = base + "?" + rng.choice(["", "", "foo=bar", "a=b&c=d", "%s=zz" % t.keys[-1], "%s=*" % t.keys[0], "x", "=", "&", "foo={bar}", "a=b?c=d",
                                          "&".join("k%d=v" % i for i in range(12)), "%s=~x" % t.keys[-1], "foo=bar/baz"])
             cls = "with_query_tail"
         elif r < 0.96:
